@@ -131,6 +131,18 @@ pub fn rclaims(r: &mut StdRng, o: &TreeOpts, now: u64) -> Value {
             }
         }
     }
+    if r.gen_bool(0.06) {
+        // an audience restriction on the credential itself: RFC 7519 4.1.3 obliges a verifier that cannot identify itself
+        // with one of the values to reject, and the API has no place to say who the verifier is; the specification leaves
+        // the outcome free while the member is visible (SpecVerify) and demands acceptance once it is hidden
+        m.insert("aud".into(), [json!("https://rp.example"), json!(["rp1", "rp2"]), json!(7), json!([]), json!({"x": 1})][r.gen_range(0..5)].clone());
+    }
+    if r.gen_bool(0.05) {
+        m.insert("sub".into(), [json!(12), json!({"id": "s"}), json!(["s"]), Value::Null][r.gen_range(0..4)].clone());
+    }
+    if r.gen_bool(0.05) {
+        m.insert("jti".into(), [json!("id-1"), json!(1), Value::Null][r.gen_range(0..3)].clone());
+    }
     m.insert("exp".into(), json!(now + r.gen_range(100_000u64..100_000_000)));
     if r.gen_bool(0.2) {
         m.insert("nbf".into(), json!(now - r.gen_range(1000..1_000_000)));
